@@ -117,6 +117,11 @@ def run_case(case):
             # documentation says so); not a change 'the library exhibits' consistently -> excluded and counted
             res["dateutil_dst_only_excluded"] = res.get("dateutil_dst_only_excluded", 0) + 1
             continue
+        # two changes closer together than one sampling interval can cancel between two samples: such a change is not one a
+        # sampling generator can be asked to exhibit -> excluded and counted (does not occur for intervals <= 22 h)
+        if any(t2 != t and abs(t2 - t) <= interval * 3600 for t2, _, _ in tab):
+            res["closer_than_interval_excluded"] = res.get("closer_than_interval_excluded", 0) + 1
+            continue
         res["qualifying"].append(t)
         if hi - t <= interval * 3600:
             res["late"] += 1
@@ -253,7 +258,7 @@ def construct_cases(lib, rnd, n):
     near = [c for c in cand if c[0] <= 48]
     for k in range(n):
         c = near[k % len(near)] if near and k < 2 * len(near) else cand[rnd.randrange(len(cand))]
-        out.append(dict(lib=lib, zone=c[1], start=rnd.randrange(2000, c[2] + 1), until=c[2] + 1, interval=rnd.choice([22, 22, 12, 7, 17, 3]),
+        out.append(dict(lib=lib, zone=c[1], start=rnd.randrange(2000, c[2] + 1), until=c[2] + 1, interval=rnd.choice([22, 22, 12, 7, 17, 3, 36, 48]),
                         detect=rnd.random() < 0.5, constructed=True))
     return out
 
@@ -263,7 +268,7 @@ def run(ctx):
         "oracle: the libraries' own transition tables (pytz _utc_transition_times/_transition_info, dateutil _trans_list_utc/_trans_idx) "
         "and a fresh evaluation of every item's epoch through the library, not the generator's sampling loop",
         "dateutil zones with negative DST offsets are excluded from the bracketing clause (library API and table disagree there); "
-        "sampling intervals 1..22 h (22 is the shipped default and the largest the docstring's 11-step bisection covers)",
+        "sampling intervals 1..72 h (22 is the shipped default); a change with another change closer than one sampling interval is excluded and counted",
         "rendering: validation_data.cpp compiled against ValidationDataType.h and read back by a generated reader",
     ]
     import logging
@@ -286,7 +291,7 @@ def run(ctx):
     @hypothesis.seed(ctx.seed)
     @settings(max_examples=400 if thorough else 100, deadline=None, database=None, phases=[Phase.generate], suppress_health_check=list(HealthCheck))
     @given(st.sampled_from(["pytz", "dateutil"]), st.integers(0, 10**6), st.integers(2000, 2035), st.integers(1, 12),
-           st.sampled_from([22, 22, 22, 1, 5, 11, 13, 20]), st.booleans())
+           st.sampled_from([22, 22, 22, 1, 5, 11, 13, 20, 35, 48, 72]), st.booleans())
     def draw(lib, zi, start, span, interval, detect):
         drawn.append(dict(lib=lib, zone=zones[lib][zi % len(zones[lib])], start=start, until=min(2038, start + span), interval=interval,
                           detect=detect, constructed=False))
@@ -312,6 +317,8 @@ def run(ctx):
         late += 1 if res["late"] else 0
         if res.get("dateutil_last_entry_excluded"):
             ctx.count("dateutil_last_table_entry_excluded", res["dateutil_last_entry_excluded"])
+        if res.get("closer_than_interval_excluded"):
+            ctx.count("changes_closer_than_one_interval_excluded", res["closer_than_interval_excluded"])
         if res.get("dateutil_dst_only_excluded"):
             ctx.count("dateutil_dst_only_transitions_excluded", res["dateutil_dst_only_excluded"])
         if res.get("excluded_negative_dst_zone"):
